@@ -34,6 +34,25 @@ func hostileString(t *rapid.T, label string) string {
 	return sb.String()
 }
 
+// hostileAddress is an address pattern as a client writes it -- segments separated by colons, empty segments
+// standing for "anything" -- in which one or two segments, at any position (before, between or after the empty
+// ones), are hostile text.
+func hostileAddress(t *rapid.T, label string) string {
+	n := rapid.IntRange(1, 5).Draw(t, label+"Segs")
+	segs := make([]string, n)
+	for i := range segs {
+		switch rapid.IntRange(0, 3).Draw(t, label+"SegKind") {
+		case 0:
+			segs[i] = ""
+		case 1:
+			segs[i] = rapid.SampledFrom([]string{"users", "x", "001", "a-b_c"}).Draw(t, label+"Plain")
+		default:
+			segs[i] = rapid.SampledFrom([]string{"x' or '1'='1", "'", "''", "x') or ('1'='1", "'; drop table accounts; --", "x\\", "a'b", "%", "_", "x'||'y", "é'", ")", "?", "--"}).Draw(t, label+"Hostile")
+		}
+	}
+	return strings.Join(segs, ":")
+}
+
 // benignAddress keeps the Split(":") pattern of empty / non-empty segments.
 func benignAddress(v string) string {
 	parts := strings.Split(v, ":")
@@ -117,6 +136,10 @@ func c20Gen(t *rapid.T) (hostile, twin c20Req, desc string, rawValue string) {
 		variant := ""
 		switch key {
 		case "address", "account", "source", "destination":
+			if rapid.Bool().Draw(t, "addressShaped") {
+				val = hostileAddress(t, "addr")
+				rawValue, hv = val, val
+			}
 			bv = benignAddress(val)
 		}
 		if rapid.IntRange(0, 9).Draw(t, "nonString") == 0 {
@@ -153,7 +176,26 @@ func c20Gen(t *rapid.T) (hostile, twin c20Req, desc string, rawValue string) {
 			}
 			return c20Req{method, path, q, hb}, c20Req{method, path, q, bb}, fmt.Sprintf("v2 %s %s operator %s", method, ep, "hostile"), hop
 		}
-		switch rapid.IntRange(0, 3).Draw(t, "nest") {
+		switch rapid.IntRange(0, 4).Draw(t, "nest") {
+		case 4:
+			// next to a harmless clause on another key of the same list (one whose value travels as a bound
+			// parameter, or is rendered): what one clause contains must not disturb how the other is sent
+			other := rapid.SampledFrom(keys).Draw(t, "otherKey")
+			if strings.Contains(other, "[K]") {
+				other = strings.Replace(other, "K", "j", 1)
+			}
+			var ov any = "x"
+			if strings.HasPrefix(other, "balance") {
+				ov = 10
+			}
+			oc := map[string]any{"$match": map[string]any{other: ov}}
+			if rapid.Bool().Draw(t, "otherFirst") {
+				hb = map[string]any{"$and": []any{oc, hb}}
+				bb = map[string]any{"$and": []any{oc, bb}}
+			} else {
+				hb = map[string]any{"$and": []any{hb, oc}}
+				bb = map[string]any{"$and": []any{bb, oc}}
+			}
 		case 0:
 			hb = map[string]any{"$and": []any{hb, mk(hk, hv)}}
 			bb = map[string]any{"$and": []any{bb, mk(bk, bv)}}
@@ -201,6 +243,10 @@ func c20Gen(t *rapid.T) (hostile, twin c20Req, desc string, rawValue string) {
 	bv := "x"
 	switch p {
 	case "address", "account", "source", "destination":
+		if rapid.Bool().Draw(t, "addressShaped") {
+			val = hostileAddress(t, "addr")
+			rawValue = val
+		}
 		bv = benignAddress(val)
 	}
 	hq.Set(hp, val)
